@@ -60,6 +60,7 @@ fn one(drv: &mut Drv, rep: &mut Report, source: &str, stream: &[u8], with_spec: 
         }
         return;
     }
+    if lib.is_none() { rep.hit("libwebp_rejects_but_specification_accepts"); }
     let expected = match (&lib, &spec) {
         (Some((_, _, l)), _) => digest(l),
         (None, Some(s)) => s.clone(),
@@ -396,6 +397,30 @@ pub fn run(o: &Opts) -> Report {
         }
     }
     // (3) crafted
+    // grammar-generated streams
+    let ngen = if o.thorough() { 6000 } else { 700 };
+    for i in 0..ngen {
+        let (gw, gh) = match i % 7 {
+            0 => (1 + rng.below(8) as u32, 1 + rng.below(8) as u32),
+            1 => (1, 1 + rng.below(60) as u32),
+            2 => (1 + rng.below(60) as u32, 1),
+            3 => (1 + rng.below(100) as u32, 1 + rng.below(24) as u32),
+            _ => (1 + rng.below(40) as u32, 1 + rng.below(40) as u32),
+        };
+        let (st, ft) = crate::vp8lgen::stream(&mut rng, gw, gh);
+        for t in &ft.transforms { rep.hit(&format!("gen_transform_{}", ["predictor", "colour", "subtract_green", "colour_indexing"][*t as usize])); }
+        if ft.transforms.len() >= 3 { rep.hit("gen_three_or_more_transforms"); }
+        if ft.cache_bits > 0 { rep.hit("gen_colour_cache"); }
+        if ft.groups > 1 { rep.hit("gen_meta_groups"); }
+        if ft.max_len >= 15 { rep.hit("gen_code_depth_15"); } else if ft.max_len > 10 { rep.hit("gen_code_depth_11_to_14"); }
+        if ft.backrefs > 0 { rep.hit("gen_backward_references"); }
+        if ft.cache_hits > 0 { rep.hit("gen_cache_hits"); }
+        if ft.rle_tokens > 0 { rep.hit("gen_length_rle_tokens"); }
+        if ft.max_symbol_used > 0 { rep.hit("gen_max_symbol"); }
+        if ft.sub_cache > 0 { rep.hit("gen_cache_in_sub_image"); }
+        if i < 2 { rep.sample(json!({"generated": format!("{gw}x{gh} {ft:?}"), "bytes": st.len()})); }
+        one(&mut drv, &mut rep, &format!("generated:{gw}x{gh}"), &st, gw * gh <= 1200 && i % 3 == 0);
+    }
     for (name, s) in crafted() {
         one(&mut drv, &mut rep, &name, &s, dims_of(&s).map(|(w, h)| w * h <= 2500).unwrap_or(false));
     }
